@@ -286,7 +286,7 @@ class Interp:
             d = self.describe(e)
             self.ev(name, idx, 'leave', d)
             self._snapshot(name, idx, st)
-            if catch and d[0] in ('prog', 'conc'):
+            if catch and d[0] in ('prog', 'conc') and not isinstance(e, tuple(PRIV_CLASSES.values())):
                 return
             raise
         else:
@@ -356,6 +356,8 @@ class Interp:
                 v = await t
             except (ProgErr, Concurrent, TaskCancelled, TaskClosed, AssertionError) as e:
                 ev(name, idx, 'got_exc', self.describe(e))
+                if st.get('nocatch'):
+                    raise
             else:
                 ev(name, idx, 'got', v)
         elif op == 'await_done':
